@@ -63,7 +63,10 @@ def gen_replace_gene(rnd, syms, R, patch, idx, cat):
     sid = rnd.choice(cands)
     c, k, w, ac = syms[sid]
     args = [rnd.randrange(idx + 1, R) for _ in ac]
-    par = dhex(float(rnd.randint(-50, 50)) if rnd.random() < 0.7 else rnd.uniform(-5, 5)) if k in "pq" else dhex(0.0)
+    if k == "n":
+        par = dhex(rnd.uniform(1.0, 1.00003))
+    else:
+        par = dhex(float(rnd.randint(-50, 50)) if rnd.random() < 0.7 else rnd.uniform(-5, 5)) if k in "pq" else dhex(0.0)
     return [str(sid), par, str(len(args))] + [str(a) for a in args]
 
 
@@ -125,6 +128,49 @@ def gen_case(rnd, thorough, force=None):
             ops.append(["N", str(k)])
     hdr = ["T" if team else "I", str(rnd.randrange(1, 2**31)), str(R), str(patch), str(tsize), str(nslots)]
     return {"hdr": hdr, "ncats": ncats, "syms": syms, "ops": ops}
+
+
+def gen_near_case(rnd, thorough):
+    """cse at the boundary between gene::operator== (parameters compared with a 1e-5 relative
+    tolerance) and the exact order cse's std::map needs: several categories, strongly typed
+    functions taking arguments of OTHER categories, and ephemeral constants drawn from
+    [1, 1.00003) -- chains a~b, b~c, a!~c of nearly equal, distinct constants are everywhere.
+    Many fresh individuals per history, each one (sometimes after a block extraction, a mutation
+    or a crossover) put through cse()."""
+    ncats = rnd.choice([2, 2, 3, 4])
+    R = rnd.randint(20, 40)
+    patch = rnd.randint(1, min(12, R - 8))
+    syms = []
+    for c in range(ncats):
+        syms.append((c, "n", 1.0, []))
+        if rnd.random() < 0.3:
+            syms.append((c, "n", 1.0, []))
+        others = [x for x in range(ncats) if x != c]
+        # same-category function, and functions mixing in lower / other categories
+        syms.append((c, "f", 1.0, [c] * rnd.choice([1, 2])))
+        lower = [x for x in range(ncats) if x < c] or others
+        syms.append((c, "f", rnd.choice([1.0, 2.0]), [rnd.choice(lower), c]))
+        if rnd.random() < 0.5:
+            syms.append((c, "f", 1.0, [rnd.choice(others), rnd.choice(others), c]))
+    rnd.shuffle(syms)
+    nslots = 3
+    ops = [["N", str(k)] for k in range(nslots)]
+    for _ in range(rnd.randint(20, 36) if not thorough else rnd.randint(30, 60)):
+        k = rnd.randrange(nslots)
+        ops.append(["N", str(k)])
+        r = rnd.random()
+        if r < 0.35:
+            ops.append(["B", str(k), str(rnd.randrange(R // 2)), str(rnd.randrange(ncats))])
+        elif r < 0.5:
+            ops.append(["M", str(k), dhex(rnd.choice([0.1, 0.5]))])
+        elif r < 0.6:
+            a = rnd.randrange(nslots)
+            ops.append(["X", str(a), str(k), str(k)])
+        ops.append(["C", str(k)])
+        if rnd.random() < 0.3:
+            ops.append(["C", str(k)])          # cse of a cse
+    hdr = ["I", str(rnd.randrange(1, 2**31)), str(R), str(patch), "1", str(nslots)]
+    return {"hdr": hdr, "ncats": ncats, "syms": syms, "ops": ops, "family": "near-equal-constants"}
 
 
 def case_line(case, nops=None):
@@ -193,6 +239,10 @@ def judge(case, hline, mline, crash=None):
         if o[0] == "M" and int(o[2], 16) == 0 and (fl.get("same") != "1" or hextra != "0"):
             viols.append(("mutation:zero-probability-changes",
                           "mutation with probability zero changed the individual (count %s): %s" % (hextra, hdump[:200]), i))
+        if o[0] == "C" and "swo" in fl:
+            stats["cse_hypothesis_params_swo_checked"] = stats.get("cse_hypothesis_params_swo_checked", 0) + 1
+            if fl["swo"] != "1":
+                diffs.append((i, "params_swo_b = false: the hypothesis of C02_cse_wf is not met by this individual", hdump[:300]))
         # ---- correspondence
         if mdump == "NONE":
             pre = o[0] == "X" and R == 2 and " i:1:1:" in (" " + hd)
@@ -340,6 +390,9 @@ def run(ck):
         for _ in range(150 if not ck.thorough else 4000):
             cases.append(gen_case(rnd, ck.thorough, {"only": ["C", "C", "M", "X", "R"], "team": False,
                                                       "ncats": rnd.choice([2, 3, 4])}))
+        for _ in range(70 if not ck.thorough else 3000):
+            cases.append(gen_near_case(rnd, ck.thorough))
+        n += len([c for c in cases if c.get("family")])
         while len(cases) < n:
             cases.append(gen_case(rnd, ck.thorough))
 
@@ -374,6 +427,8 @@ def run(ck):
         diffs, viols, stats = judge(c, hout[k], mout[k])
         for a, b in stats.items():
             total[a] = total.get(a, 0) + b
+        if c.get("family"):
+            total["cse_on_near_equal_constants"] = total.get("cse_on_near_equal_constants", 0) + stats.get("cse", 0)
         kinds = {o[0] for o in c["ops"]} - {"N", "F", "A"}
         if len(kinds) >= 2 and int(c["hdr"][2]) >= 3:
             ck.nontriv((c["hdr"][0], c["hdr"][2], c["hdr"][3], c["ncats"], len(c["syms"]),
